@@ -2040,16 +2040,12 @@ End Striping.
     lock-striping policy (cuckoo::striping<>), for every schedule, any number of threads, any client programs,
     including concurrent relocations and resizes.
 
-    For the refinable policy (cuckoo::refinable<>) the lock / ownership protocol is proved for every schedule of the
-    whole model in [CuckooConcRefInv.v] / [CuckooConcRefProofs.v] (invariant [CoreR]: reentrant cell locks of
-    several generations of lock arrays, owner word, capacity word, m_access; theorems
-    [cuckoo_refinable_owner_excludes_thm], [cuckoo_refinable_valid_stable_thm], [cuckoo_refinable_cs_exclusive_thm]:
-    a thread that returned from acquire() holds cells of the current arrays, no other thread is the exclusive
-    owner, critical sections on a probe set exclude each other).  What is still missing for the two statements
-    below under that policy is the combination of [CoreR] with the probe-set part of [Core] of this file
-    (snapshots [v_mask] / [v_reg] refreshed at the validation step of acquire() and when the resizer becomes
-    exclusive, [has0] := validated or exclusive, [auth] := [cell_auth]) and the replay of the specifications of this
-    file against the combined invariant; the linearization points are the same. *)
+    The refinable policy (cuckoo::refinable<>) is proved in [CuckooConcRefInv.v] / [CuckooConcRefProofs.v] (lock /
+    ownership protocol, invariant [CoreR]) and [CuckooConcFInv.v] / [CuckooConcFProofs.v] ([CoreR] combined with the
+    probe-set part of [Core] of this file: snapshots refreshed at the validation step of acquire() and when the
+    resizer becomes exclusive, authority = validated or exclusive owner, the same linearization points).
+    [CuckooConcAll.v] puts the two policies together: [cuckoo_linearizable], [cuckoo_nodup] are the two
+    statements below. *)
 Definition cuckoo_linearizable_statement : Prop :=
   forall cf, 0 < c_nl cf ->
   forall ths (c : Conc.config G V ev), Conc.reach (init_cfg cf ths) c ->
